@@ -2184,8 +2184,10 @@ func (f *fragment) importValueSmallWrite(columnIDs []uint64, values []int64, bit
 		_ = f.openStorage(true)
 		return err
 	}
-	rowSet := make(map[uint64]struct{}, bitDepth+1)
-	for i := uint(0); i < bitDepth+1; i++ {
+	// The import touches the existence row, the sign row and one row per
+	// value bit: rows 0 through bsiOffsetBit+bitDepth-1.
+	rowSet := make(map[uint64]struct{}, bitDepth+bsiOffsetBit)
+	for i := uint(0); i < bitDepth+bsiOffsetBit; i++ {
 		rowSet[uint64(i)] = struct{}{}
 	}
 	err := f.importPositions(toSet, toClear, rowSet)
@@ -2225,6 +2227,12 @@ func (f *fragment) importValue(columnIDs []uint64, values []int64, bitDepth uint
 		_ = f.openStorage(true)
 		return err
 	}
+	// The rows were rewritten in storage directly, so drop any cached copy
+	// of them.
+	for i := uint(0); i < bitDepth+bsiOffsetBit; i++ {
+		f.rowCache.Add(uint64(i), nil)
+	}
+
 	// We don't actually care, except we want our stats to be accurate.
 	f.incrementOpN(totalChanges)
 
